@@ -253,7 +253,7 @@ def P(spec):
 class Fn:
     def __init__(self, name, deps, params, ret="u64", is_async=False, calls=(), opts="",
                  props=("C01",), below="", trait=None, vis="pub", send=True, generics=(), where=(),
-                 bundle_args="", default_body=False, attrs="", unsafe_=False, big=False):
+                 bundle_args="", default_body=False, attrs="", unsafe_=False, big=False, guard_calls=False):
         self.name = name
         self.trait = trait or "".join(w.capitalize() for w in name.split("_"))
         self.deps = deps  # (form, [bounds])
@@ -273,6 +273,9 @@ class Fn:
         self.attrs = attrs
         self.unsafe_ = unsafe_
         self.big = big
+        # nested calls only while the first argument is not a multiple of 3, passing it on
+        # decremented: bounded recursion through the function's own (or a peer's) trait
+        self.guard_calls = guard_calls
         self.fn_id = None
         self.method_id = None
         self.container = None  # module name / impl target
@@ -420,12 +423,24 @@ def fn_text(fn, indent="", in_impl=False):
         callee = ALL_FNS[callee_name]
         n = sum(1 for _ in callee.params)
         args = [f"sim::sub(&__f, {ci * 8 + j})" for j in range(n)]
+        if fn.guard_calls and args:
+            args[0] = "(p0 % 3).wrapping_sub(1)"
         lines.append(f"let __a{ci} = [{', '.join(args)}];" if n else f"let __a{ci}: [u64; 0] = [];")
-        lines.append(f"let __t{ci} = sim::call_start({callee.method_id}, sim::addr({depsb}), &__a{ci});")
         cargs = ", ".join(f"__a{ci}[{j}]" for j in range(n))
         aw = ".await" if callee.is_async else ""
-        lines.append(f"let __c{ci} = {depsb.lstrip('&')}.{callee.name}({cargs}){aw};")
-        lines.append(f"sim::call_end(__t{ci}, __c{ci});")
+        if fn.guard_calls:
+            lines.append(f"let __c{ci} = if p0 % 3 > 0 {{")
+            lines.append(f"    let __t{ci} = sim::call_start({callee.method_id}, sim::addr({depsb}), &__a{ci});")
+            lines.append(f"    let __r = {depsb.lstrip('&')}.{callee.name}({cargs}){aw};")
+            lines.append(f"    sim::call_end(__t{ci}, __r);")
+            lines.append("    __r")
+            lines.append("} else {")
+            lines.append("    0")
+            lines.append("};")
+        else:
+            lines.append(f"let __t{ci} = sim::call_start({callee.method_id}, sim::addr({depsb}), &__a{ci});")
+            lines.append(f"let __c{ci} = {depsb.lstrip('&')}.{callee.name}({cargs}){aw};")
+            lines.append(f"sim::call_end(__t{ci}, __c{ci});")
         children.append(f"__c{ci}")
         if fn.is_async:
             lines.append("sim::pause(&__f).await;")
@@ -461,8 +476,9 @@ bundle_traits = []   # traits every app handle implements
 unmock_traits = []   # traits the Unimock handle implements (unimock build)
 
 
-def single(fn):
-    register(fn)
+def single(fn, registered=False):
+    if not registered:
+        register(fn)
     attr = f"#[entrait(pub {fn.trait}{', ' + fn.opts if fn.opts else ''})]"
     fn.cid = new_container()
     corpus.append(cmark(fn.cid) + ccfg(fn.cid) + attr + "\n" + fn_text(fn) + cmark(0))
@@ -736,6 +752,11 @@ single(Fn("ary16", ("impl", ["F0"]), ["u64"] * 16))
 single(Fn("ndary12", ("nodeps", []), ["u64"] * 12, opts="no_deps"))
 module("m12", "M12", [Fn(f"m12_{i}", ("impl", ["F0"]), ["u64", "u64"]) for i in range(12)])
 module("am12", "Am12", [Fn(f"am12_{i}", ("impl", ["Af0"]), ["u64", "u64"], is_async=True) for i in range(12)])
+
+
+# ==== more parameter names ==================================================
+for nme in ["core", "std", "dep", "impl_", "entrait_t", "unimock"]:
+    single(Fn(f"n3_{nme}", ("impl", ["F0"]), ["u64", f"name={nme}:u64"], calls=["f0"]))
 
 N_PLAIN = METHOD_COUNTER[0]
 
